@@ -107,7 +107,7 @@ XOf(C, m) == [X0 EXCEPT !.pos = m.pt.off, !.errs = m.errs, !.fmax = m.fmax, !.fs
 BlockEvent(C, m, n, kind, pos, text, store) ==
   [blk |-> n.blk, kind |-> kind, pos |-> pos, text |-> text,
    args |-> <<"l", [i \in 1..Len(n.args) |-> Lookup(TopEnv(m), n.args[i], Len(TopEnv(m)))]>>, store |-> StoreSnap(store), g |-> m.g]
-BlockErr(C, m, n, pos) == IF BlockErrs(C, n) THEN Append(m.errs, [pos |-> pos, alt |-> pos, rule |-> RuleName(C, m), msg |-> "e" \o ToString(n.blk)])
+BlockErr(C, m, n, pos) == IF BlockErrs(C, n) THEN Append(m.errs, [pos |-> pos, alt |-> pos, rule |-> RuleName(C, m), msg |-> IF C.opt.samemsg THEN "same" ELSE "e" \o ToString(n.blk)])
                           ELSE m.errs
 
 (* liveness configuration (C16): for a lasso to exist in a finite graph the value list of a looping repetition  *)
